@@ -126,6 +126,9 @@ def run(tier="quick", seed=0, replay=None):
         print(open(replay).read())
         return 1
     core.lean_stage(chk, "C15")
+    from harness import cover
+    _cv = cover.Cover(['ixai/explainer/pfi.py', 'ixai/explainer/sage/incremental.py', 'ixai/explainer/base.py', 'ixai/explainer/sage/batch.py', 'ixai/explainer/sage/interval.py'])
+    _cv.__enter__()
     quick = tier == "quick"
     for label, names, f in ctor_sweep(chk)[:4]:
         chk.violation(f"ctor:{label}", f"{label} with feature names {names!r}: {f}", {"ctor": label, "names": [core.canon_key(n) for n in names]})
@@ -192,6 +195,8 @@ def run(tier="quick", seed=0, replay=None):
                     break
     else:
         chk.tie_failure("driver", "model driver not built")
+    _cv.__exit__(None, None, None)
+    cover.gate(chk, _cv, only_functions=['IncrementalPFI', 'IncrementalSage', 'BaseIncrementalFeatureImportance.__init__', 'BaseIncrementalExplainer.__init__', 'BatchSage.__init__', 'IntervalSage.__init__'])
     chk.exhaustive = False
     chk.extra["explanation"] = ("Counting/ordering theorems (seen_counts, model_call_budget = 1 + d*n, storage_once_last, returns_importance_values, "
                                 "agrees_with_pure) about the effectful model; the Python-level part (constructors from required arguments, positional "
